@@ -1,6 +1,6 @@
 (* C08 — unsupported constructs are rejected, never silently dropped or mistranslated. *)
 From Coq Require Import String List Bool ZArith.
-From OL Require Import PyAst Namespace Lower Reject.
+From OL Require Import PyAst Namespace Lower Reject KSem KSim Depth DeadCode.
 From OLGen Require Import Tables.
 Import ListNotations.
 
@@ -38,6 +38,14 @@ Theorem C08_return_outside_function : forall cfg c p v,
   n_kind (c_nsp c) <> NFunction -> lower_stmt cfg c p (SReturn v) = inr ESyntax.
 Proof. exact return_outside_function. Qed.
 Print Assumptions C08_return_outside_function.
+
+(* the FULL statement - a program containing an unsupported statement ANYWHERE is refused - is refuted: the statements after a
+   direct break / continue / return of a block are not dispatched (known finding K-dead-code-unchecked; the theorems above are
+   about the statements the traversal reaches, `reaches_unsupported`) *)
+Theorem C08_dead_code_unchecked_refuted :
+  (exists e, lower_module cfg_list top_symtab dead_code_prog = inl e) /\ existsb reaches_unsupported dead_code_prog = false.
+Proof. exact dead_code_unchecked. Qed.
+Print Assumptions C08_dead_code_unchecked_refuted.
 
 Example C08_nonvacuous :
   reaches_unsupported
